@@ -70,6 +70,8 @@ result = [n, bad[:5]]
               ". = 1000\ns: .word s\n. = 1020\nt: .word t\n.blkw y\nc: .word c\ny = 3\n",
               # a compound (repeat body) whose fixed-size content precedes an element of still unknown size: the sum of lengths is built as number + pending
               "a: .word a\n.repeat 2 { .byte 1\n.blkb n }\n.even\nb: .word b\nn = 3\n.repeat 2 { .word 5\n.byte 1\n.even }\nc: .word c\n",
+              # a string (a bytearray chunk) behind a statement that is still pending, inside a compound whose length is needed
+              "a: .word a\n.repeat 2 { .word q\n.ascii \"abc\"\n.even }\nb: .word b\nq = 1\n.repeat 2 { .word q\n.asciz \"xy\"\n.even }\nc: .word c\n",
               # the operand-less forms of the data directives (one implicit zero item each)
               "a: .word a\n.word\n.byte 1\n.even\nb: .word b\n.dword\n.byte 2\n.even\nc: .word c\n.byte\n.even\nd: .word d\n.dw\n.db\n.even\ns: .word s\n"]
     jobs = [{"kind": "asm", "sources": [p], "symbols": True} for p in probes]
